@@ -191,7 +191,15 @@ where
             ret = async {pipe_fn.read().await}, if have_rawfd => {
                 let len = ret.with_context(|| format!("pipe_read from {}", src.name))?;
                 if len > 0 {
-                    pipe_fn.write(len >= params.buffer_size).await.with_context(|| format!("pipe_write to {}", dst.name))?;
+                    // splice(2) into a socket may move fewer bytes than the pipe holds: drain it completely
+                    let mut left = len;
+                    while left > 0 {
+                        let n = pipe_fn.write(len >= params.buffer_size).await.with_context(|| format!("pipe_write to {}", dst.name))?;
+                        if n == 0 {
+                            return Err(std::io::Error::from(std::io::ErrorKind::WriteZero)).with_context(|| format!("pipe_write to {}", dst.name));
+                        }
+                        left = left.saturating_sub(n);
+                    }
                     stat.incr_sent_bytes(len);
                     #[cfg(feature = "metrics")]
                     counter.inc_by(len as u64);
